@@ -28,6 +28,7 @@ type c09world struct {
 	datas  []data.Map
 	ij     data.Map
 	bundle soymsg.Bundle
+	gen    *soyjs.Generator
 }
 
 type c09op struct {
@@ -61,6 +62,7 @@ func c09Build() (*c09world, error) {
 		{"a": data.String("other"), "l": data.List{}, "b": data.Map{"label": data.String("from-b")}},
 	}
 	w.bundle = identityBundleFor(reg)
+	w.gen = soyjs.NewGenerator(reg)
 	return w, nil
 }
 
@@ -82,6 +84,7 @@ func c09Ops() []c09op {
 		render("p.one.main", 0, true),
 		render("p.two.show", 0, false),
 		render("p.one.fails", 0, false),
+		render("p.one.failsdeep", 0, false),
 		{"js es5 file#0", func(w *c09world) string {
 			var buf bytes.Buffer
 			err := soyjs.Write(&buf, w.reg.SoyFiles[0], soyjs.Options{})
@@ -91,6 +94,13 @@ func c09Ops() []c09op {
 			var buf bytes.Buffer
 			err := soyjs.Write(&buf, w.reg.SoyFiles[0], soyjs.Options{Formatter: soyjs.ES6Formatter{}, Messages: w.bundle})
 			return buf.String() + errClass(err)
+		}},
+		{"generator file#1 then file#0", func(w *c09world) string {
+			// the Generator is the object a server shares between request goroutines
+			var buf bytes.Buffer
+			err1 := w.gen.WriteFile(&buf, "f1.soy")
+			err0 := w.gen.WriteFile(&buf, "f0.soy")
+			return buf.String() + errClass(err1) + errClass(err0)
 		}},
 		{"compile an independent bundle and render it", func(w *c09world) string {
 			t, err := soy.NewBundle().AddTemplateString("ind.soy", "{namespace ind}\n/** @param x */\n{template .t}\n{msg desc=\"d\"}a{$x}b<b>{$x.yZ}</b>{/msg}{['k': $x, 'j': 1]}{let $b}[{$x.yZ}]{/let}{$b}\n{/template}\n").CompileToTofu()
@@ -105,7 +115,7 @@ func c09Ops() []c09op {
 }
 
 func sharedRoots(w *c09world) []any {
-	roots := []any{w.reg, &w.datas, &w.ij, w.bundle}
+	roots := []any{w.reg, &w.datas, &w.ij, w.bundle, w.gen}
 	return append(roots, packageState()...)
 }
 
@@ -329,7 +339,7 @@ func digestDiffC09(w *c09world) string {
 		return "?"
 	}
 	b := sharedRoots(fresh)
-	labels := []string{"compiled registry", "caller data", "injected data", "message bundle"}
+	labels := []string{"compiled registry", "caller data", "injected data", "message bundle", "shared generator"}
 	for i := range a {
 		if s, ok := a[i].(string); ok {
 			labels = append(labels, s, s)
